@@ -193,6 +193,27 @@ fn shapes(tier: Tier) -> Vec<T> {
     out
 }
 
+/// contexts (text before, text after) for the non-initial-state structural comparison
+const CONTEXTS: &[(&str, &str)] = &[
+    ("let r0 = match 9 { 1 => 1, _ => 0 }; ", ";"),
+    ("let r0 = match 9 { 1 | 2 => 1, 3..5 => 2 }; ", ";"),
+    ("match 9 { 1 => 0, _ => { ", " } };"),
+    ("match 9 { 1 | 3 => { ", " } _ => 0 };"),
+    ("match 9 { 1 => 0, _ => ", " };"),
+    ("match ", " { _ => 0 };"),
+    ("fn ctx() { ", " }"),
+    ("if true { ", " }"),
+    ("if ", " { 1 }"),
+    ("while false { ", "; }"),
+    ("let ar = [0, ", "];"),
+    ("let mp = map {1: ", "};"),
+    ("fi(", ");"),
+    ("@ true { ", "; }"),
+    ("@ ", " { 1; }"),
+    ("@ end { 1; } ", ";"),
+    ("@ 1 | 2 { 1; } ", ";"),
+];
+
 const LEAF_VALS: &[&str] = &["0", "1", "2", "3", "true", "false"];
 
 pub struct P03 {
@@ -254,6 +275,31 @@ impl Property for P03 {
                 }
             }
         }
+        // the same grouping from non-initial parser states: the minimal and the fully parenthesised text are embedded
+        // in contexts that put the parser into (or leave it just after) its special modes — match patterns and arms,
+        // filter patterns and actions, blocks, literals, arguments — and must be grouped identically there
+        if !matches!(t, T::Assign(..)) {
+            for (pre, post) in CONTEXTS {
+                let show = |text: &str| {
+                    let src = format!("{}{}{}", pre, text, post);
+                    guarded(|| {
+                        let (prog, errs) = parse_only(&src);
+                        (format!("{}", prog), !errs.is_empty())
+                    })
+                };
+                match (show(&min_s), show(&full_s)) {
+                    (Err(m), _) | (_, Err(m)) => return CaseOut::viol(format!("{} parser-panic", class), format!("parser panicked on `{}{}{}`: {}", pre, min_s, post, m)),
+                    (Ok((a, ea)), Ok((b, eb))) => {
+                        if ea != eb || (!ea && a != b) {
+                            return CaseOut::viol(
+                                format!("{} grouping in context", class),
+                                format!("in the context `{}□{}` the minimal text `{}` is parsed as {} (errors: {}) but the fully parenthesised `{}` as {} (errors: {})", pre, post, min_s, a, ea, full_s, b, eb),
+                            );
+                        }
+                    }
+                }
+            }
+        }
         // deciding differential oracle over all leaf assignments
         let k: u64 = if self.nassign == 81 { 3 } else { 6 };
         let mut runs = 0u64;
@@ -289,7 +335,7 @@ impl Property for P03 {
         CaseOut::pass(format!("{} {}", class, outcomes.into_iter().collect::<Vec<_>>().join("+"))).with_counts(1, runs, runs)
     }
     fn rule(&self) -> String {
-        "shapes: every ordered pair of the 18 binary operators in both nesting positions; every prefix operator against every binary operator (on either operand and around the result), against itself, against index and call; index and call against every binary operator; assignment against every binary operator, chained and with an index target; postfix chains; all five shapes of three binary operators (8-operator subset quick, all 18 thorough). Each shape is rendered minimally (only the parentheses the documented table requires) and fully parenthesised; both texts are run on the real pipeline for every leaf assignment (3^4 quick, 6^4 thorough) and must give the same value/error and the same side effects; additionally the real parser's own fully parenthesised rendering of both texts must equal the intended tree".into()
+        "shapes: every ordered pair of the 18 binary operators in both nesting positions; every prefix operator against every binary operator (on either operand and around the result), against itself, against index and call; index and call against every binary operator; assignment against every binary operator, chained and with an index target; postfix chains; all five shapes of three binary operators (8-operator subset quick, all 18 thorough). Each shape is rendered minimally (only the parentheses the documented table requires) and fully parenthesised; both texts are run on the real pipeline for every leaf assignment (3^4 quick, 6^4 thorough) and must give the same value/error and the same side effects; additionally the real parser's own fully parenthesised rendering of both texts must equal the intended tree; and in each of {} contexts (after a match with and without an explicit default arm, inside arm bodies, as a scrutinee, condition, element, argument, filter pattern and filter action, after filters) the minimal and the fully parenthesised text must be grouped identically by the parser (non-assignment shapes)".replace("{}", &CONTEXTS.len().to_string())
     }
     fn bounds(&self) -> Value {
         json!({"shapes": self.shapes.len(), "leaf_assignments_per_shape": self.nassign})
